@@ -324,3 +324,6 @@ func IteStr(c bool, a, b string) string {
 
 // Float64 returns an arbitrary float64 (engine: symbolic; native: from bits).
 func Float64(name string) float64 { return math.Float64frombits(nextInt(name)) }
+
+// CacheExpiry(true): from now on a TTL-cache entry may be reported missing at any lookup.
+func CacheExpiry(on bool) {}
